@@ -125,9 +125,28 @@ pub fn install_crash_marker() {
     }
     unsafe {
         for sig in [6, 11, 4, 7, 8] {
-            signal(sig, on_fatal as *const () as usize);
+            // SA_ONSTACK: a stack overflow (unbounded recursion in the library) raises SIGSEGV with no stack left; the handler
+            // must run on the alternate stack the Rust runtime has set up for the main thread, or the worker dies without
+            // saying which case it was running
+            let act = SigAction { handler: on_fatal as *const () as usize, mask: [0; 16], flags: 0x0800_0000, restorer: 0 };
+            if sigaction(sig, &act, core::ptr::null_mut()) != 0 {
+                signal(sig, on_fatal as *const () as usize);
+            }
         }
     }
+}
+
+/// glibc's `struct sigaction` on x86_64 / aarch64 Linux
+#[repr(C)]
+struct SigAction {
+    handler: usize,
+    mask: [u64; 16],
+    flags: i32,
+    restorer: usize,
+}
+
+extern "C" {
+    fn sigaction(signum: i32, act: *const SigAction, old: *mut SigAction) -> i32;
 }
 
 thread_local! {
